@@ -1099,8 +1099,12 @@ func ethCheck(sg ecdsaSig, wantV string, wantAction string) (defects []string, m
 		return []string{"harness"}, false, conc, ""
 	}
 	sig := ecdsa.Signature{R: Rl, S: Sl}
-	if !sig.Verify(lX, sg.hash) || !oracle.ECDSAVerifyPoint(sg.X, sg.hash, sg.R, sg.s) {
+	if !oracle.ECDSAVerifyPoint(sg.X, sg.hash, sg.R, sg.s) {
 		return []string{"harness"}, false, conc, ""
+	}
+	if !sig.Verify(lX, sg.hash) {
+		// the independent verifier accepts the constructed signature, the library does not: not a harness matter
+		return []string{"library-rejects-valid-signature"}, false, conc, ""
 	}
 	var out, out2 []byte
 	var err, err2 error
